@@ -884,7 +884,8 @@ def _op_edit(ctx, owner, op):
 def _op_drop(ctx, owner, op):
     """The caller lets go of an object (the only reference the harness holds): it is released right now."""
     lst = ctx.objs.get(owner, [])
-    cands = [o for o in lst if o.kind in ("atom", "ang", "shellgrid", "mol")]
+    kinds = (op[2],) if len(op) > 2 else ("atom", "ang", "shellgrid", "mol")
+    cands = [o for o in lst if o.kind in kinds]
     if not cands:
         ctx.log.add(ctx.step, "drop", "skip")
         return
@@ -1227,6 +1228,21 @@ class CacheHistoryEngine:
             spec["prelude"] = [_gen_op(rng, cfg) for _ in range(rng.randint(0, 3))]
         else:
             spec["ops"] = [_gen_op(rng, cfg) for _ in range(rng.randint(4, 40))]
+            if rng.random() < 0.2:
+                # object-recycling pattern: use an atomic grid, let go of it, build a different one (steered onto the
+                # released address) and use that one the same way (handle -1 = the most recently built object)
+                m0 = rng.choice(cfg["methods"])
+
+                def atom_op():
+                    rs = _gen_rspec(rng)
+                    nn = max(rs[1], 2) if rs[0] in ("uni", "gl") else rs[1]
+                    return ["atom", rs, _gen_degspec(rng, cfg, m0, nn), _gen_center(rng), rng.choice([0, 0, 7]), m0]
+
+                i0, rsq = rng.randrange(3), rng.random() < 0.5
+                what = rng.choice(["integrate", "angint", "sph", "spline", "interp"])
+                pat = [atom_op(), ["shell", -1, i0, rsq], ["use", -1, what], ["drop", -1, "atom"], atom_op(), ["shell", -1, i0, rsq], ["use", -1, what]]
+                pos = rng.randint(0, len(spec["ops"]))
+                spec["ops"][pos:pos] = pat
         return spec
 
     def _generate_load_fault_enum(self, rng, seed):
